@@ -29,26 +29,28 @@ import (
 // derivation along the configured path, every listed address is the address of the dumped key.
 
 type binCase struct {
-	Type     int      `json:"type"`     // 3 or 4
-	AType    string   `json:"atype"`    // p2kh segwit bech32 tap pks
-	Testnet  bool     `json:"testnet"`  //
-	Litecoin bool     `json:"litecoin"` // only with atype p2kh/segwit/pks
-	Path     []uint32 `json:"path"`     // type 4: hdpath (the last element is the first key's index)
-	HDSubs   int      `json:"hdsubs"`   //
-	Bip39    int      `json:"bip39"`    // 0 | 12 15 18 21 24 | -1 (the password is a mnemonic)
-	Entropy  string   `json:"entropy"`  // bip39=-1: the user's mnemonic is the reference mnemonic of this entropy
-	Deco     int      `json:"deco"`     // bip39=-1: how the user typed the sentence
-	P39      string   `json:"p39"`      // bip39=-1, password from file: BIP39 passphrase typed on stdin ("" = none)
-	Scrypt   int      `json:"scrypt"`   // 0 = off
-	KeyCnt   int      `json:"keycnt"`   //
-	Password string   `json:"password"` // hex of the seed password bytes (unused with bip39=-1)
-	SeedPfx  string   `json:"seedpfx"`  // hex of the wallet.cfg "seed=" value ("" = none)
-	P39On    bool     `json:"p39on"`    // -p39 given (also implied by a non-empty P39 in older replay files)
-	P39Term  string   `json:"p39term"`  // how the typed line ends: lf | crlf | eof
-	Dialog   string   `json:"dialog"`   // first-time run without .secret, password typed at the prompts: save_y | save_n | retry_y | single_y | ask_p | mismatch ("" = not exercised)
-	CRLF     bool     `json:"crlf"`     // wallet.cfg written with CR LF line ends
-	Via      string   `json:"via"`      // stdin | file (.secret)
-	Flags    bool     `json:"flags"`    // options as command-line switches instead of wallet.cfg lines
+	Type       int      `json:"type"`                 // 3 or 4
+	AType      string   `json:"atype"`                // p2kh segwit bech32 tap pks
+	Testnet    bool     `json:"testnet"`              //
+	Litecoin   bool     `json:"litecoin"`             // only with atype p2kh/segwit/pks
+	Path       []uint32 `json:"path"`                 // type 4: hdpath (the last element is the first key's index)
+	HDPathStr  string   `json:"hdpathstr,omitempty"`  // the hdpath as the user spells it (given with -hdpath); "" = canonical spelling of Path
+	HDPathKind string   `json:"hdpathkind,omitempty"` // which spelling (for the histogram)
+	HDSubs     int      `json:"hdsubs"`               //
+	Bip39      int      `json:"bip39"`                // 0 | 12 15 18 21 24 | -1 (the password is a mnemonic)
+	Entropy    string   `json:"entropy"`              // bip39=-1: the user's mnemonic is the reference mnemonic of this entropy
+	Deco       int      `json:"deco"`                 // bip39=-1: how the user typed the sentence
+	P39        string   `json:"p39"`                  // bip39=-1, password from file: BIP39 passphrase typed on stdin ("" = none)
+	Scrypt     int      `json:"scrypt"`               // 0 = off
+	KeyCnt     int      `json:"keycnt"`               //
+	Password   string   `json:"password"`             // hex of the seed password bytes (unused with bip39=-1)
+	SeedPfx    string   `json:"seedpfx"`              // hex of the wallet.cfg "seed=" value ("" = none)
+	P39On      bool     `json:"p39on"`                // -p39 given (also implied by a non-empty P39 in older replay files)
+	P39Term    string   `json:"p39term"`              // how the typed line ends: lf | crlf | eof
+	Dialog     string   `json:"dialog"`               // first-time run without .secret, password typed at the prompts: save_y | save_n | retry_y | single_y | ask_p | mismatch ("" = not exercised)
+	CRLF       bool     `json:"crlf"`                 // wallet.cfg written with CR LF line ends
+	Via        string   `json:"via"`                  // stdin | file (.secret)
+	Flags      bool     `json:"flags"`                // options as command-line switches instead of wallet.cfg lines
 }
 
 // p39 tells whether -p39 is used, the bytes typed on stdin and the passphrase the wallet's line reader delivers:
@@ -293,7 +295,11 @@ func setupWallet(dir string, c binCase) (args []string, stdin []byte, err error)
 		opt("litecoin=true", "-ltc")
 	}
 	if c.Type == 4 {
-		opt("hdpath="+pathString(c.Path), "-hdpath", pathString(c.Path))
+		if c.HDPathStr != "" {
+			args = append(args, "-hdpath", c.HDPathStr) // verbatim (a wallet.cfg value would be trimmed by the file syntax)
+		} else {
+			opt("hdpath="+pathString(c.Path), "-hdpath", pathString(c.Path))
+		}
 		if c.HDSubs != 1 {
 			opt(fmt.Sprintf("hdsubs=%d", c.HDSubs), "-hdsubs", fmt.Sprint(c.HDSubs))
 		}
@@ -415,6 +421,7 @@ func findTagged(lines []string, tag string) string {
 }
 
 type binInfo struct {
+	pathRefused     bool   // the spelled hdpath was refused
 	dialog          string // the first-time dialogue that was exercised
 	builds          int    // wallets built inside the one process of the -sign .. -send .. -l invocation
 	refusedEmptyP39 bool
@@ -435,6 +442,33 @@ func checkBinary(c binCase) (info binInfo, err error) {
 	args, stdin, err := setupWallet(dir, c)
 	if err != nil {
 		return info, err
+	}
+	if c.Type == 4 && c.HDPathStr != "" {
+		// the user's spelling: under the decimal reading of the BIP32 notation it is either a path (then exactly its
+		// keys may be listed) or not a path (then only a refusal is right); the wallet may always refuse
+		p, perr := hd.ParsePath(c.HDPathStr)
+		r0, err := runWallet(bin, dir, stdin, append(append([]string{}, args...), "-l")...)
+		if err != nil {
+			return info, err
+		}
+		_, e := os.Stat(filepath.Join(dir, "wallet.txt"))
+		if on, _, eff := c.p39(); e != nil && on && eff == "" {
+			// (an empty BIP39 passphrase line is refused first, with exit code 0 - see below)
+		} else if e != nil {
+			if r0.code == 0 {
+				return info, fmt.Errorf("hdpath %q: nothing was listed, yet the exit code is 0: exit %d\nstdout: %.600s\nstderr: %.600s", c.HDPathStr, r0.code, r0.stdout, r0.stderr)
+			}
+			info.pathRefused = true
+			return info, nil
+		}
+		if e == nil && (perr != nil || len(p) == 0) {
+			lst, _ := os.ReadFile(filepath.Join(dir, "wallet.txt"))
+			return info, fmt.Errorf("hdpath %q is not a path in decimal BIP32 notation (%v), yet the wallet lists keys for it:\n%s", c.HDPathStr, perr, lst)
+		}
+		if perr != nil || len(p) == 0 {
+			return info, nil // (refused for the empty passphrase; the path is not a path anyway)
+		}
+		c.Path = p // everything below compares with the reference derivation along the decimal reading
 	}
 	run := func(extra ...string) (runResult, error) {
 		return runWallet(bin, dir, stdin, append(append([]string{}, args...), extra...)...)
@@ -1022,6 +1056,11 @@ func checkBinary(c binCase) (info binInfo, err error) {
 	if err != nil && p39on {
 		err = fmt.Errorf("with the BIP39 passphrase %+q: %v", effPass, err)
 	}
+	if err != nil && c.HDPathStr != "" {
+		if _, isKnown := err.(*knownFinding); !isKnown {
+			err = fmt.Errorf("with hdpath spelled %q: %v", c.HDPathStr, err)
+		}
+	}
 	return info, err
 }
 
@@ -1110,6 +1149,71 @@ func genP39(t *rapid.T) string {
 	return word()
 }
 
+// spellPath writes the path the way a user might: one or two elements (or the frame) in an unusual spelling.
+// Whether a spelling still denotes the path is decided by ref/hd.ParsePath, not here.
+func spellPath(t *rapid.T, path []uint32) (string, string) {
+	els := make([]string, len(path))
+	for i, v := range path {
+		els[i] = fmt.Sprint(v &^ hd.Hardened)
+		if v >= hd.Hardened {
+			els[i] += "'"
+		}
+	}
+	kinds := []string{"leading_zeros", "leading_zeros", "leading_zeros", "plus_sign", "h_marker", "hex", "octal_binary", "underscore", "white_space",
+		"empty_element", "minus", "double_marker", "out_of_range", "capital_m", "trailing_slash", "leading_slash", "only_m"}
+	kind := rapid.SampledFrom(kinds).Draw(t, "spellkind")
+	k := rapid.IntRange(0, len(path)-1).Draw(t, "spellpos")
+	v, hard := path[k]&^hd.Hardened, ""
+	if path[k] >= hd.Hardened {
+		hard = "'"
+	}
+	frame := "m/"
+	switch kind {
+	case "leading_zeros":
+		// every element may get zeros in front, so that numbers like 044, 010, 00084 appear
+		for i, p := range path {
+			if i == k || rapid.Bool().Draw(t, "zeros_more") {
+				els[i] = strings.Repeat("0", rapid.IntRange(1, 3).Draw(t, "zeros")) + els[i]
+				_ = p
+			}
+		}
+	case "plus_sign":
+		els[k] = "+" + els[k]
+	case "h_marker":
+		els[k] = fmt.Sprint(v) + rapid.SampledFrom([]string{"h", "H"}).Draw(t, "hmark")
+	case "hex":
+		els[k] = fmt.Sprintf("0x%x%s", v, hard)
+	case "octal_binary":
+		els[k] = fmt.Sprintf(rapid.SampledFrom([]string{"0o%o%s", "0b%b%s", "0O%o%s"}).Draw(t, "obfmt"), v, hard)
+	case "underscore":
+		d := fmt.Sprint(v)
+		if len(d) < 2 {
+			d = "1" + d
+		}
+		els[k] = d[:1] + "_" + d[1:] + hard
+	case "white_space":
+		els[k] = rapid.SampledFrom([]string{" %s", "%s ", "\t%s", " %s "}).Draw(t, "wsfmt")
+		els[k] = fmt.Sprintf(els[k], fmt.Sprint(v)+hard)
+	case "empty_element":
+		els[k] = rapid.SampledFrom([]string{"", "'"}).Draw(t, "empty")
+	case "minus":
+		els[k] = "-" + els[k] // -0 has the value 0, everything else is negative
+	case "double_marker":
+		els[k] = fmt.Sprint(v) + rapid.SampledFrom([]string{"''", "'h", "h'"}).Draw(t, "dbl")
+	case "out_of_range":
+		els[k] = rapid.SampledFrom([]string{"2147483648", "4294967296", "2147483648'", "4294967295", "99999999999999999999"}).Draw(t, "oor")
+	case "capital_m":
+		frame = "M/"
+	case "trailing_slash":
+		return "m/" + strings.Join(els, "/") + "/", kind
+	case "leading_slash":
+		frame = "/m/"
+	case "only_m":
+		return rapid.SampledFrom([]string{"m", "m/", ""}).Draw(t, "onlym"), kind
+	}
+	return frame + strings.Join(els, "/"), kind
+}
+
 func genBinCase(t *rapid.T) binCase {
 	c := binCase{Type: 4, HDSubs: 1}
 	if rapid.IntRange(0, 4).Draw(t, "type3") == 0 {
@@ -1137,6 +1241,9 @@ func genBinCase(t *rapid.T) binCase {
 				room = 16 // key count / sub-account count are added to the last two elements
 			}
 			c.Path = append(c.Path, genPathElem(t, fmt.Sprintf("p%d", i), room))
+		}
+		if rapid.IntRange(0, 2).Draw(t, "spell") == 0 {
+			c.HDPathStr, c.HDPathKind = spellPath(t, c.Path)
 		}
 		c.Bip39 = rapid.SampledFrom([]int{-1, -1, -1, 0, 0, 12, 15, 18, 21, 24}).Draw(t, "bip39")
 	}
@@ -1270,6 +1377,20 @@ func TestWalletBinary(t *testing.T) {
 		pbt.AddExtra("wallet_keys_checked", int64(info.keys))
 		if info.refKeys {
 			r.Class("keys_equal_reference_derivation")
+		}
+		if c.HDPathStr != "" {
+			r.Class("hdpath_spelled")
+			r.Class("hdpath_" + c.HDPathKind)
+			if _, e := hd.ParsePath(c.HDPathStr); e != nil {
+				r.Class("hdpath_not_a_path")
+			} else {
+				r.Class("hdpath_decimal_reading_exists")
+			}
+			if info.pathRefused {
+				r.Class("hdpath_refused")
+			} else {
+				r.Class("hdpath_accepted")
+			}
 		}
 		if info.dialog != "" {
 			r.Class("first_time_dialog")
